@@ -37,6 +37,7 @@ FEATURES = [
     'long',
     'very_long',           # thousands of steps (chunked writes, batch sizes, quadratic loops)
     'negative_rain',       # dry steps reported as slightly negative (gauge drift) or as a -9999 code
+    'dst_fold_twins',      # two equal storms that carry the same wall-clock label in a machine zone falling back
     'epoch_zero',          # the record starts at 1970-01-01 00:00:00 UTC (epoch 0)
     'many_stretches',      # 10-14 gaps: data-interval labels reach two digits
     'displace_exhaust',    # a displaced storm with no candidate left
@@ -51,7 +52,36 @@ DYADIC_STEPS = [900, 1800, 3600, 7200, 900, 1800, 3600, 7200, 225, 86400, 129600
 OTHER_STEPS = [600, 1200, 600, 1200, 1, 60, 432000, 3900, 7380, 115]
 
 
+def gen_dst_fold_twins(rng):
+    """Two equal one-step storms, each with its rise, that start exactly one fold apart on either
+    side of the instant at which a machine time zone falls back (America/New_York 2021-11-07
+    06:00 UTC, one hour; Australia/Lord_Howe 2021-04-03 15:00 UTC, half an hour): rendered in
+    that zone they carry the same wall-clock start and end.  The data are in UTC."""
+    import datetime
+
+    instant, fold, step = rng.choice([('2021-11-07 06:00:00', 3600, 1800), ('2021-04-03 15:00:00', 1800, 900),
+                                      ('2021-11-07 06:00:00', 3600, 3600), ('2021-04-03 15:00:00', 1800, 1800)])
+    sthr, jthr = 2.0, 2.0
+    J = jthr * step / 3600.0
+    lead = rng.randint(6, 14)
+    a, b = lead, lead + fold // step
+    n = b + rng.randint(6, 12)
+    rain = [0.0] * n
+    rain[1] = sthr / 4            # some rain early in the record
+    rain[a] = rain[b] = sthr * 2
+    dz = [-0.125 * J] * (n - 1)
+    dz[a] = dz[b] = 2 * J
+    z = [0.0]
+    for d in dz:
+        z.append(z[-1] + d)
+    start = datetime.datetime.strptime(instant, '%Y-%m-%d %H:%M:%S') - datetime.timedelta(seconds=fold + a * step)
+    return {'kind': 'series', 'step': step, 't0': start.strftime('%Y-%m-%d %H:%M:%S'), 'tz': 'UTC', 'rain': rain, 'et': 0.125,
+            'z': [[i * step, v] for i, v in enumerate(z)], 'sthr': sthr, 'jthr': jthr, 'dyadic': True, 'feats': {}, 'force': 'dst_fold_twins'}
+
+
 def gen(rng, force=None, dyadic=None, max_segments=10):
+    if force == 'dst_fold_twins':
+        return gen_dst_fold_twins(rng)
     if dyadic is None:
         dyadic = rng.random() < 0.6
     step = rng.choice(DYADIC_STEPS) if dyadic else rng.choice(OTHER_STEPS)
